@@ -265,3 +265,28 @@ def c18_r5(ctx):
                loc=aw.loc)
     if n < 3:
         raise AnalysisError("only %d index-reading IndexWriter operations found" % n)
+
+
+@rule("C18", "R6", "K10", "every attribute a writer front-end's public methods read is bound when that front-end is constructed",
+      min_instances=5, also=("C06",),
+      clause="For every IndexWriter subclass K: an attribute that only a base-class constructor binds, while constructing K never runs "
+             "that constructor, is not read by a method reachable from K's public methods (add_document, group/start_group/end_group, "
+             "commit, cancel, ...) -- the same call sequence must work on every front-end.")
+def c18_r6(ctx):
+    from .common import undefined_attribute_reads
+    prog = ctx.prog
+    base = prog.cls("writing.IndexWriter")
+    n = 0
+    for cls in prog.subclasses(base):
+        n += 1
+        bad = undefined_attribute_reads(prog, cls)
+        for attr in sorted(set(a for a, _, _, _ in bad)):
+            rows = [(f, line, entry) for a, f, line, entry in bad if a == attr]
+            ctx.ob(cls, False, "self.%s is bound when a %s is constructed" % (attr, cls.name),
+                   detail="read by %s (reached from %s); bound only by a base constructor that %s.__init__ does not call: AttributeError at run time" % (
+                       ", ".join(sorted(set(f.short for f, _, _ in rows)))[:200], ", ".join(sorted(set(e + "()" for _, _, e in rows)))[:120], cls.name),
+                   loc=cls.loc)
+        if not bad:
+            ctx.ob(cls, True, "every attribute read by %s's public methods is bound when it is constructed" % cls.name, loc=cls.loc)
+    if n < 5:
+        raise AnalysisError("only %d writer classes" % n)
